@@ -118,6 +118,34 @@ pub fn seg_wide() -> Vec<u32> {
     out
 }
 
+/// MANY parameters x a batch of 8 (1024 -> 256 -> 10: 265 226 parameters, 2.1 million gradient additions per step): beyond
+/// any threshold on "parameters x samples" from which the per-sample gradients might be summed in parallel
+pub fn seg_manyparams() -> Vec<u32> {
+    let mut net = Network::new(Shape::Single(1024));
+    net.dense(256, Activation::Tanh, true, None);
+    net.dense(10, Activation::Linear, true, None);
+    net.set_objective(Objective::MSE, None);
+    net.set_optimizer(optimizer::SGD::create(0.05, None));
+    let mut r = Mix(0xC05_B16);
+    let fresh = neurons::verif::params(&net);
+    let filled: Vec<LayerParams> = fresh.iter().map(|p| refill_params(p, &mut r, None)).collect();
+    neurons::verif::set_params(&mut net, &filled);
+    let xs: Vec<Tensor> = (0..9).map(|_| Tensor::single((0..1024).map(|_| r.f(1.0)).collect())).collect();
+    let ts: Vec<Tensor> = (0..9).map(|_| Tensor::single((0..10).map(|_| r.f(1.0)).collect())).collect();
+    let (xr, tr): (Vec<&Tensor>, Vec<&Tensor>) = (xs.iter().collect(), ts.iter().collect());
+    let (train, _, _) = net.learn(&xr, &tr, None, 8, 1, None);
+    let mut out: Vec<u32> = train.iter().map(|x| x.to_bits()).collect();
+    // the second layer's parameters and a digest of the first layer's (265k values) keep the observation small
+    let ps = neurons::verif::params(&net);
+    let mut first = Vec::new();
+    param_bits(&ps[0], &mut first);
+    let d = digest(&first);
+    out.push(d as u32);
+    out.push((d >> 32) as u32);
+    param_bits(&ps[1], &mut out);
+    out
+}
+
 /// a feedback block WITH input skips and 5 repetitions: its backward pass adds several skip gradients into the same
 /// source - the order of those additions must not depend on anything but the network (e.g. not on hash order)
 pub fn network_skips() -> Network {
@@ -323,7 +351,7 @@ pub fn partition(n: usize) -> Vec<Vec<usize>> {
         .collect()
 }
 
-pub const SEGMENTS: [&str; 15] = [
+pub const SEGMENTS: [&str; 16] = [
     "learn-adam-b2",
     "learn-adam-b3",
     "learn-adam-b5",
@@ -340,6 +368,7 @@ pub const SEGMENTS: [&str; 15] = [
     "learn-block-inskips",
     "learn-shared-source-skips",
     "learn-conv6-second",
+    "learn-manyparams-wide",
 ];
 
 pub fn run_segment(name: &str) -> Vec<u32> {
@@ -358,6 +387,7 @@ pub fn run_segment(name: &str) -> Vec<u32> {
         "learn-block-inskips" => seg_skips(),
         "learn-shared-source-skips" => seg_shared_source(),
         "learn-conv6-second" => seg_conv6(),
+        "learn-manyparams-wide" => seg_manyparams(),
         "predict_batch" => seg_predict(),
         "canary" => seg_canary(),
         _ => panic!("unknown segment {}", name),
